@@ -19,8 +19,8 @@ Definition sim_abs (code : list ipos) (pc0 pend : nat) (B : state -> outcome) : 
     match B st with
     | Done st' => exists n r', stepn n code (boundary pc0 r t vs ps st)
                    = MRunning (boundary pend r' t vs ps st')
-    | Failed x q st' => exists n s', stepn n code (boundary pc0 r t vs ps st) = MError x q s' /\ mscreen s' = screen st'
-    | StepZero q st' => exists n s', stepn n code (boundary pc0 r t vs ps st) = MStepZero q s' /\ mscreen s' = screen st'
+    | Failed x q st' => exists n s', stepn n code (boundary pc0 r t vs ps st) = MError x q s' /\ of_mio (mscreen s') = screen st'
+    | StepZero q st' => exists n s', stepn n code (boundary pc0 r t vs ps st) = MStepZero q s' /\ of_mio (mscreen s') = screen st'
     | OutOfFuel => True
     end.
 
@@ -109,9 +109,9 @@ Proof.
   intros st r t vs ps.
   change (strip ((c, b, lb) :: rest)) with ((c, b) :: strip rest). rewrite arms_sem_cons. unfold cond.
   destruct (eval c (vars st)) as [v st1|x q] eqn:Ev.
-  2:{ destruct (gen_expr_error num_text is_negative c code pa r t vs ps (vars st) (screen st) false x q Hc Ev)
-        as (k & s' & _ & Hs & Hd & _). exists k, s'. split; assumption. }
-  destruct (gen_expr_value num_text is_negative c code pa r t vs ps (vars st) (screen st) false v st1 Hc Ev) as [b1 Sc].
+  2:{ destruct (gen_expr_error num_text is_negative c code pa r t vs ps (vars st) (to_mio (screen st)) false x q Hc Ev)
+        as (k & s' & _ & Hs & Hd & _). apply (f_equal of_mio) in Hd; rewrite ?of_to_mio in Hd. exists k, s'. split; assumption. }
+  destruct (gen_expr_value num_text is_negative c code pa r t vs ps (vars st) (to_mio (screen st)) false v st1 Hc Ev) as [b1 Sc].
   fold lc in Sc. unfold after in Sc.
   destruct (truthy v) as [[|]|x] eqn:Tv.
   - (* this arm is taken *)
@@ -165,7 +165,7 @@ Proof.
       * exact I.
   - (* the condition's value cannot be tested *)
     eexists (lc + 1), _. rewrite stepn_add. unfold boundary at 1. rewrite Sc, stepn_one. unfold Machine.step. cbn [pc]. rewrite Hjf.
-    unfold cur. cbn [rstack ra]. rewrite Tv. split; reflexivity.
+    unfold cur. cbn [rstack ra]. rewrite Tv. split; [reflexivity|apply of_to_mio].
 Qed.
 
 End WithNumberText.
